@@ -53,3 +53,18 @@ def wire(tr, o):
 def rx(tr, mem16, cap, w, mustfail=0, allocfail=0, verdict=0, vaddr=0, data=()):
     return 'rx %d %d %d %d %d %d %d %d %d %s %d %s' % (mustfail, tr, mem16, cap, allocfail, verdict, vaddr >> 16, vaddr & 0xFFFF,
                                                         len(data), ' '.join(map(str, data)), len(w), ' '.join(map(str, w)))
+
+
+def rxn(tr, mem16, cap, w, mustfail=0, allocfail=0, verdict=0, vaddr=0, data=()):
+    return 'rxn' + rx(tr, mem16, cap, w, mustfail, allocfail, verdict, vaddr, data)[2:]
+
+
+def session(rnd, tr, mem16, cap, units):
+    """units: list of (unframed frame octets, kwargs for the cycle). One stream, one protocol instance."""
+    stream = []
+    for o, kw in units:
+        stream += wire(tr, o)
+    sc = ['rxopen %d %d %d %d %s' % (tr, mem16, cap, len(stream), ' '.join(map(str, stream)))]
+    for o, kw in units:
+        sc.append(rxn(tr, mem16, cap, wire(tr, o), **kw))
+    return sc
